@@ -52,12 +52,12 @@ def gen_specs(ctx, count):
             spec.rate = rng.choice([0.1, 0.15, 0.2, 0.25, 0.3, 0.34, 0.4])
         if rng.random() < 0.6:
             spec.indels = True
-        if rng.random() < 0.08:
+        if rng.random() < 0.12:
             # a tolerance given as an absolute number of errors becomes the rate k/m; for some lengths the product rate * m falls just
             # below k in floating point (1/49 * 49 < 1): aligner and k-mer heuristic must then agree on the SAME integer part
-            m = rng.choice([47, 49, 49, 55, rng.randint(41, 60)])
+            m = rng.choice([23, 41, 46, 47, 49, 49, 55, 57, 61, 63, rng.randint(20, 64), rng.randint(41, 60)])
             spec.seq = U.rand_seq(rng, m, "ACGT")
-            spec.rate = rng.choice([1, 2, 3, 4, 7]) / m
+            spec.rate = rng.choice([1, 2, 3, 4, 5, 5, 6, 7]) / m
             spec.adapter_wildcards = False
             spec.min_overlap = rng.choice([3, 10, m])
         elif rng.random() < 0.04:
@@ -99,6 +99,17 @@ def reads_for(rng, spec, seq, count):
         # the occurrence sits far from both read ends, so that only the k-mers of the whole adapter can let the read through
         for cp in chunk_damaged_copies(rng, seq, int(spec.rate * m)):
             reads.append(U.rand_seq(rng, rng.randint(45, 70), "ACGT") + cp + U.rand_seq(rng, rng.randint(45, 70), "ACGT"))
+    elif m >= 20 and spec.rate * m >= 1 - 1e-9 and all(c in "ACGT" for c in seq):
+        # a full-length copy with exactly the allowed number of errors, one in every k-mer chunk but one, where the adapter type wants it
+        k = int(spec.rate * m + 1e-9)
+        for cp in chunk_damaged_copies(rng, seq, k - 1 if k * (1.0 / spec.rate) > m + 1e-9 else k)[:4] + chunk_damaged_copies(rng, seq, k)[:4]:
+            fill = U.rand_seq(rng, rng.randint(8, 20), "ACGT")
+            if spec.typ in ("Suffix", "NonInternalBack"):
+                reads.append(fill + cp)
+            elif spec.typ in ("Prefix", "NonInternalFront"):
+                reads.append(cp + fill)
+            else:
+                reads.append(fill + cp + U.rand_seq(rng, rng.randint(8, 20), "ACGT"))
     for _ in range(count):
         mode = rng.random()
         if mode < 0.5:
@@ -160,6 +171,14 @@ def check(ctx):
         seq = U.rand_seq(rng, m, rng.choice(["AC", "ACGT", "ACGTN"]))
         rate = rng.choice(U.RATES)
         tcases.append((seq, rng.randint(1, m), rate, rng.random() < 0.6, rng.random() < 0.6, rng.random() < 0.7, rng.random() < 0.5))
+    # tolerances given as absolute error counts (rate k/m) and a few two-digit rates on longer adapters, anchored / non-internal forms
+    # (no internal search set): the tier boundaries of the overlap search sets depend on the integer part of length * rate
+    sweep = [(m, k / m) for m in range(20, 65) for k in range(1, 9) if ctx.size(m % 2 == 1 or k in (3, 5, 6, 7), True)]
+    sweep += [(m, r) for m in range(40, 61, ctx.size(5, 1)) for r in (0.22, 0.15, 0.3, 0.12)]
+    for m, rate in sweep:
+        seq = U.rand_seq(rng, m, "ACGT")
+        back = rng.random() < 0.5
+        tcases.append((seq, rng.choice([1, 3, m]), rate, back, not back, False, True))
     try:
         impl_t = [canon_impl_table(create_positions_and_kmers(*c[:6], indels=c[6])) for c in tcases]
         mod_t = [canon_model_table(x) for x in core.model_run([table_line(*c) for c in tcases])] if model_ok else [None] * len(tcases)
